@@ -22,6 +22,7 @@ var hookKindNames = [...]string{"add", "discard", "getctx", "noop", "levelhook",
 
 // Step is one logger derivation step.
 type Step struct {
+	Decoy  bool   // after this step, derive (and drop) siblings from the step's parent: they must not disturb the chain
 	Kind   string // With, WithReset, WithTimestamp, WithStack, WithCtx, UpdateContext, Hook, Level, Output, Sample
 	Ops    []*Op
 	Hooks  []*HookSpec
@@ -212,6 +213,7 @@ func (g *G) GenProgram(maxChain, maxEvents, maxOps int) *Program {
 			st.Kind = "Sample"
 		}
 		lastWith = strings.HasPrefix(st.Kind, "With")
+		st.Decoy = st.Kind != "UpdateContext" && r.Chance(1, 2)
 		p.Chain = append(p.Chain, st)
 	}
 	nev := 1 + r.Intn(maxEvents)
@@ -400,6 +402,7 @@ func (x *Exec) BuildLogger(base zerolog.Logger, chain []Step, out *Rec, hookLog 
 	l := base
 	for i := range chain {
 		st := &chain[i]
+		prev := l
 		switch st.Kind {
 		case "With", "WithReset":
 			c := l.With()
@@ -436,9 +439,21 @@ func (x *Exec) BuildLogger(base zerolog.Logger, chain []Step, out *Rec, hookLog 
 		case "Sample":
 			l = l.Sample(admitAll{})
 		}
+		if st.Decoy {
+			// siblings derived from the same parent after the fact; if any of their state leaks into the
+			// chain a DECOY field shows up or a hook goes missing
+			d1 := prev.Hook(decoyHook{})
+			d2 := prev.With().Str("DECOY", "ctx").Logger()
+			d3 := prev.Hook(decoyHook{}, decoyHook{})
+			_, _, _ = d1, d2, d3
+		}
 	}
 	return l
 }
+
+type decoyHook struct{}
+
+func (decoyHook) Run(e *zerolog.Event, l zerolog.Level, m string) { e.Str("DECOY", "hook") }
 
 // StartEvent opens the event of ev on l.
 func StartEvent(l *zerolog.Logger, ev *EventSpec) *zerolog.Event {
